@@ -1,0 +1,121 @@
+//go:build verif
+
+package miner
+
+// Verification hooks of the view-change client family (build tag `verif` only; add-only).
+// They let a harness keep several miner chains in one process (one per simulated miner), select
+// the one the package-level accessors return, and read the view-change client state.
+
+import (
+	"sort"
+	"sync"
+
+	"0chain.net/chaincore/block"
+	"0chain.net/chaincore/chain"
+	"0chain.net/chaincore/round"
+	"0chain.net/chaincore/threshold/bls"
+)
+
+// VerifVCNewChain builds a further miner chain over c exactly as SetupMinerChain builds the
+// package's one (SetupMinerChain fills the object `minerChain` points to) and returns it. The
+// package-level chain is left as it was.
+func VerifVCNewChain(c *chain.Chain) *Chain {
+	mcGuard.Lock()
+	saved := minerChain
+	minerChain = &Chain{}
+	mcGuard.Unlock()
+	SetupMinerChain(c)
+	mcGuard.Lock()
+	mc := minerChain
+	minerChain = saved
+	mcGuard.Unlock()
+	return mc
+}
+
+// VerifVCSelect makes mc the chain returned by GetMinerChain (the node "running" now).
+func VerifVCSelect(mc *Chain) {
+	mcGuard.Lock()
+	minerChain = mc
+	mcGuard.Unlock()
+}
+
+// VerifVCClient is the view-change client state of a miner chain.
+type VerifVCClient struct {
+	CurrentPhase   int
+	NextViewChange int64
+	DKGSet         bool
+	DKG            *bls.DKG // viewChangeDKG (nil if not set)
+	SosKeys        []string // receivers with an entry in shareOrSigns
+	SosSigned      []string // ... whose entry carries a signature
+	SosRevealed    []string // ... whose entry carries the share itself
+	MpkKeys        []string // miners in the local copy of the key vectors
+	Mpks           *block.Mpks
+}
+
+// VerifVCSnapshot reads the view-change client state.
+func (mc *Chain) VerifVCSnapshot() *VerifVCClient {
+	vcp := &mc.viewChangeProcess
+	vcp.Lock()
+	defer vcp.Unlock()
+	s := &VerifVCClient{CurrentPhase: int(vcp.currentPhase), NextViewChange: vcp.NextViewChange(),
+		DKGSet: vcp.viewChangeDKG != nil, DKG: vcp.viewChangeDKG}
+	if vcp.shareOrSigns != nil {
+		for k, v := range vcp.shareOrSigns.ShareOrSigns {
+			s.SosKeys = append(s.SosKeys, k)
+			if v != nil && v.Sign != "" {
+				s.SosSigned = append(s.SosSigned, k)
+			}
+			if v != nil && v.Share != "" {
+				s.SosRevealed = append(s.SosRevealed, k)
+			}
+		}
+	}
+	if vcp.mpks != nil {
+		s.Mpks = vcp.mpks.Clone()
+		for k := range vcp.mpks.Mpks {
+			s.MpkKeys = append(s.MpkKeys, k)
+		}
+	}
+	sort.Strings(s.SosKeys)
+	sort.Strings(s.SosSigned)
+	sort.Strings(s.SosRevealed)
+	sort.Strings(s.MpkKeys)
+	return s
+}
+
+// VerifVCSos returns a copy of the entries of viewChangeProcess.shareOrSigns.
+func (mc *Chain) VerifVCSos() map[string]*bls.DKGKeyShare {
+	vcp := &mc.viewChangeProcess
+	vcp.Lock()
+	defer vcp.Unlock()
+	out := map[string]*bls.DKGKeyShare{}
+	if vcp.shareOrSigns != nil {
+		for k, v := range vcp.shareOrSigns.ShareOrSigns {
+			if v != nil {
+				c := *v
+				out[k] = &c
+			}
+		}
+	}
+	return out
+}
+
+// VerifVCRoundDKGs returns the starting rounds of the installed DKGs (ascending) and the DKGs.
+func (mc *Chain) VerifVCRoundDKGs() ([]int64, []*bls.DKG) {
+	mc.muDKG.RLock()
+	defer mc.muDKG.RUnlock()
+	rounds := append([]int64{}, mc.roundDkg.GetRounds()...)
+	sort.Slice(rounds, func(i, j int) bool { return rounds[i] < rounds[j] })
+	out := make([]*bls.DKG, 0, len(rounds))
+	for _, r := range rounds {
+		var d *bls.DKG
+		if e := mc.roundDkg.Get(r); e != nil {
+			d, _ = e.(*bls.DKG)
+		}
+		out = append(out, d)
+	}
+	return rounds, out
+}
+
+var _ = round.NewRoundStartingStorage
+var _ sync.Mutex
